@@ -58,6 +58,11 @@ def deep_case(rng, policy):
     flush_at = {"never": None, "random": rng.randint(97, nst - 2), "always": nst - 1}[policy]
     for i in range(nst):
         evs.append(("stmt", {"k": "insert", "table": name, "cols": [], "rows": [[i * 12 + j, "r"] for j in range(12)]}))
+        if i == nst - 4:
+            # rows of the right-most leaf are changed and THEN moved to a new page by the splits the next statements
+            # cause: their update / delete records name the old page, their insert records are redone at every restart
+            evs.append(("stmt", {"k": "update", "table": name, "sets": [("b", "w")], "where": [[(("col", "", "a"), ">=", i * 12 + 4)]]}))
+            evs.append(("stmt", {"k": "delete", "table": name, "where": [[(("col", "", "a"), "=", i * 12 + 9)]]}))
         if i == flush_at:
             evs.append(("flush",))
     evs.append(("stmt", {"k": "update", "table": name, "sets": [("b", "u")], "where": [[(("col", "", "a"), "=", 1170)]]}))
